@@ -227,15 +227,22 @@ func execDigest(res *abci.ResponseFinalizeBlock, engine []sim.EngineCall, c *sim
 	return hex.EncodeToString(h.Sum(nil)[:10])
 }
 
-// execDigestSet is execDigest with the engine calls taken as a SET and without newPayload requests for the proposal's own
-// payload (hash `own`): on a replica that has just refused the proposal in ProcessProposal the engine may still log that call's
-// newPayload request (the client gave up, the server had not answered yet) at any later moment. Whether the head moved to the
-// proposal's payload stays visible in the forkchoiceUpdated call.
+// execDigestSet is execDigest with the engine calls taken as a SET, keeping of the newPayload requests only those for a block
+// that a forkchoiceUpdated call of the same log names as head: on the replica that receives the mutated proposals, a refused
+// ProcessProposal may leave its newPayload request in flight (the client gave up, the server logs it at any later moment, also
+// during the execution of a LATER proposal); such late requests are for payloads that never became head. What FinalizeBlock
+// itself tells the engine - newPayload(head), forkchoiceUpdated(head, safe, finalized) - stays in the digest.
 func execDigestSet(res *abci.ResponseFinalizeBlock, engine []sim.EngineCall, c *sim.Chain, own string) string {
+	heads := map[string]bool{}
+	for _, e := range engine {
+		if e.Method == "fcu" {
+			heads[e.Head] = true
+		}
+	}
 	seen := map[string]bool{}
 	var uniq []sim.EngineCall
 	for _, e := range engine {
-		if e.Method == "newPayload" && e.Hash == own {
+		if e.Method == "newPayload" && !heads[e.Hash] {
 			continue
 		}
 		k := fmt.Sprintf("%s/%s/%s/%s/%s", e.Method, e.Head, e.Safe, e.Fin, e.Hash)
@@ -600,6 +607,19 @@ func (d *hoDriver) mutatedProcess(h int64, round, proposer int, now time.Time, v
 		"recipientPadded", "recipientShort", "sysAdded", "sysRemoved", "sysAltered", "countByte", "reqGarbage", "gas0", "gas2", "futureTime", "engineInvalid", "engineSyncing", "tooMany", "empty",
 		"garbageRest", "timeoutWrong", "badSig", "blob"}
 	mut := muts[r.Intn(len(muts))]
+	// when system transactions of BOTH modules are due, often cut the list inside / right after the bridge's part
+	nb, nl := 0, 0
+	for i := 0; i < int(pl.ExtraData[0]) && i < len(pl.Transactions); i++ {
+		if st, err := project.DecodeSysTx(pl.Transactions[i]); err == nil && (st.Kind == "reward" || st.Kind == "unlock") {
+			nl++
+		} else {
+			nb++
+		}
+	}
+	cutAt := -1
+	if nb > 0 && nl > 0 && r.Intn(3) == 0 {
+		mut, cutAt = "sysRemoved", nb+r.Intn(nl)
+	}
 	skew := false // a payload time stamp only a few seconds ahead: the block is executed again once the clock has passed it
 	if d.forceMut != "" {
 		mut, d.forceMut = d.forceMut, ""
@@ -711,7 +731,16 @@ func (d *hoDriver) mutatedProcess(h int64, round, proposer int, now time.Time, v
 		}
 		p := clone()
 		n := int(pl.ExtraData[0])
-		switch r.Intn(4) {
+		variant := r.Intn(4)
+		if cutAt >= 0 {
+			variant = 4
+		}
+		switch variant {
+		case 4: // all of the bridge's, but fewer than bridge + locking transactions in the whole list (count byte: what is there / what is due)
+			p.Transactions = p.Transactions[:cutAt]
+			if r.Intn(2) == 0 {
+				p.ExtraData[0] = byte(cutAt)
+			}
 		case 0: // the first system transaction is missing
 			p.Transactions = p.Transactions[1:]
 			p.ExtraData[0]--
